@@ -20,6 +20,9 @@ Judge1(r) ==
   Chk("DiagEmpty",      DiagZero(n, W0),
   Chk("Symmetric",      r.dir = 1 \/ IsSym(n, W0),
   (* the returned coefficients are the correlations of the strength sequences *)
+  (* weights scaled to 2^-560: products of strengths underflow in any float implementation of   *)
+  (* Pearson's r, so the returned coefficients carry no information there                      *)
+  Skip("correlation_underflows_at_this_magnitude", r.skip_corr = 1,
   Skip("corr_out_of_int32_domain",
        ~(/\ CorrDomainOK(n, InSeq(n, PosPart(n, W)), InSeq(n, PosPart(n, W0)))
          /\ CorrDomainOK(n, OutSeq(n, PosPart(n, W)), OutSeq(n, PosPart(n, W0)))
@@ -29,7 +32,7 @@ Judge1(r) ==
   Chk("CorrPosOut", CorrMatches(n, OutSeq(n, PosPart(n, W)), OutSeq(n, PosPart(n, W0)), r.corr[2], r.corr2[2]),
   Chk("CorrNegIn",  CorrMatches(n, InSeq(n, NegPart(n, W)),  InSeq(n, NegPart(n, W0)),  r.corr[3], r.corr2[3]),
   Chk("CorrNegOut", CorrMatches(n, OutSeq(n, NegPart(n, W)), OutSeq(n, NegPart(n, W0)), r.corr[4], r.corr2[4]),
-  "ok")))))))))))))
+  "ok"))))))))))))))
 
 (* drift: W0's sign pattern is the pattern left by the internal sign-preserving rewiring *)
 Drift(r) ==
